@@ -18,7 +18,7 @@ echo "== packages touched: $PKGS"
 for f in "$SD"/demo/*_test.go; do [ -f "$f" ] || continue; d=$(grep -h -o 'cp [^ ]* [^ ]*' "$SD/demo/RUN.txt" | grep "$(basename $f)" | head -1 | awk '{print $3}'); done
 echo "== RUN.txt:"; cat "$SD/demo/RUN.txt"
 if [ -z "${SEED_DEMO_CMD:-}" ]; then
-  SEED_DEMO_CP=$(grep -E '^(cp|mkdir) ' "$SD/demo/RUN.txt" | tr '\n' ';')
+  SEED_DEMO_CP=$(grep -E '^(cp|mkdir) ' "$SD/demo/RUN.txt" | sed "s#<OUT>#$(dirname $SD)#g" | tr '\n' ';')
   SEED_DEMO_CMD=$(grep -E 'go1.26.8 (test|run)' "$SD/demo/RUN.txt" | grep -v '^#' | sed 's/^timeout [0-9]* //' | head -1)
 fi
 echo "== demo cp: $SEED_DEMO_CP"; echo "== demo cmd: $SEED_DEMO_CMD"
